@@ -311,3 +311,71 @@ pub fn region_name(addr: u16) -> &'static str {
     0xffff => "ie",
   }
 }
+
+pub struct BinaryRun {
+  pub stdout: Vec<u8>,
+  pub exit_code: Option<i32>,
+  pub signal: Option<i32>,
+  /// neither `done` became true nor did the process exit within the (generous) bound
+  pub timed_out: bool,
+}
+
+/// Run a binary on a ROM file with stdout captured in a file. The run ends
+/// when the process exits by itself, or when `done(stdout so far)` holds (plus
+/// a short grace period to catch trailing output), or - inconclusive - after
+/// `timeout_s` seconds of wall clock. The process is then stopped.
+pub fn run_binary_until<F: Fn(&[u8]) -> bool>(bin: &str, rom_path: &str, done: F, timeout_s: u64) -> BinaryRun {
+  use std::io::Read;
+  use std::os::unix::process::ExitStatusExt;
+  use std::process::{Command, Stdio};
+  let outpath = format!("{}.stdout", rom_path);
+  let outf = std::fs::File::create(&outpath).expect("create stdout capture");
+  let mut run = BinaryRun { stdout: Vec::new(), exit_code: None, signal: None, timed_out: false };
+  let mut child = match Command::new(bin).arg(rom_path).env("RUST_BACKTRACE", "0").stdout(Stdio::from(outf)).stderr(Stdio::null()).spawn() {
+    Ok(c) => c,
+    Err(_) => {
+      run.timed_out = true;
+      return run;
+    }
+  };
+  let read_all = |p: &str| -> Vec<u8> {
+    let mut d = Vec::new();
+    if let Ok(mut f) = std::fs::File::open(p) {
+      let _ = f.read_to_end(&mut d);
+    }
+    d
+  };
+  let start = std::time::Instant::now();
+  let mut exited = false;
+  loop {
+    if let Ok(Some(s)) = child.try_wait() {
+      run.exit_code = s.code();
+      run.signal = s.signal();
+      exited = true;
+      break;
+    }
+    let cur = read_all(&outpath);
+    if done(&cur) {
+      // grace period: anything the process still wants to print
+      std::thread::sleep(std::time::Duration::from_millis(40));
+      if let Ok(Some(s)) = child.try_wait() {
+        run.exit_code = s.code();
+        run.signal = s.signal();
+        exited = true;
+      }
+      break;
+    }
+    if start.elapsed().as_secs() >= timeout_s {
+      run.timed_out = true;
+      break;
+    }
+    std::thread::sleep(std::time::Duration::from_millis(4));
+  }
+  if !exited {
+    let _ = child.kill();
+    let _ = child.wait();
+  }
+  run.stdout = read_all(&outpath);
+  let _ = std::fs::remove_file(&outpath);
+  run
+}
